@@ -149,7 +149,7 @@ func initHashMap() {
 
 	Def(
 		c,
-		"map",
+		"map_pairs",
 		func(vm *Thread, args []value.Value) (value.Value, value.Value) {
 			self := args[0].AsReference().(HashMap)
 			callable := args[1]
